@@ -624,3 +624,49 @@ Proof.
     + intros k Hk. rewrite Psw2, LP, PSWc. now apply saved_psw_keeps_bit.
     + intros a Ha Da Db. unfold ramb. rewrite B2. fold (ramb m1 a). rewrite Fr by assumption. apply Bc.
 Qed.
+
+(* ---- the hypotheses are satisfiable ---- *)
+(* a concrete machine that meets every hypothesis of interrupt_retps_transparent_R: vector 1 names a handler control
+   block at 0x748000 whose PSW word has R set (and priority level 15); the interrupted process's block is at 0x740000,
+   the interrupt stack at 0x741000; RAM is otherwise zero (so both block-move lists are empty) *)
+Definition ex_rom : mem :=
+  mset (mset (mset (mset (rom (bus_new 0)) 144 0) 145 116) 146 128) 147 0.      (* 0x00748000 at 0x90 *)
+Definition ex_m : mach :=
+  stw (mkMach (mkRegs 1 2 3 4 5 6 7 8 9 7537408 7537664 0 7536640 7602176 7606272 7340288)
+              (with_rom (bus_new 0) ex_rom))
+      7634944 123136.                                                              (* 0x748000 <- 0x1e100 *)
+
+Example R_block_premises :
+  let m := ex_m in let v := 1 in
+  bus_wf (mbus m) /\ 0 <= v /\ in_rom_w (140 + 4 * v)
+  /\ (let N := romw m (140 + 4 * v) in
+      let P := R m R_PCBP in
+      let S := R m R_ISP in
+      pcb_in_ram N /\ in_ram_w (N + 64) /\ ldw m (N + 64) = 0
+      /\ pcb_in_ram P /\ in_ram_w (P + 64) /\ ldw m (P + 64) = 0
+      /\ in_ram_w S /\ S + 4 < 4294967296
+      /\ (P + 68 <= N \/ N + 68 <= P) /\ (S + 4 <= P \/ P + 68 <= S) /\ (S + 4 <= N \/ N + 68 <= S)
+      /\ (let H := ldw m N in
+          0 <= H /\ Z.testbit H 8 = true /\ Z.testbit H 7 = false /\ Z.testbit H 11 = false /\ Z.testbit H 12 = false))
+  /\ Z.testbit (PSW m) 7 = false
+  /\ (forall i, 0 <= i <= 15 -> 0 <= R m i < 4294967296).
+Proof.
+  cbv zeta.
+  split; [constructor; cbn; auto|].
+  split; [lia|]. split; [unfold in_rom_w; cbn; lia|].
+  split.
+  { assert (EN : romw ex_m (140 + 4 * 1) = 7634944) by (vm_compute; reflexivity).
+    assert (EP : R ex_m R_PCBP = 7602176) by (vm_compute; reflexivity).
+    assert (ES : R ex_m R_ISP = 7606272) by (vm_compute; reflexivity).
+    rewrite EN, EP, ES. unfold pcb_in_ram, in_ram_w, RAMB, RAME.
+    assert (L1 : ldw ex_m (7634944 + 64) = 0) by (vm_compute; reflexivity).
+    assert (L2 : ldw ex_m (7602176 + 64) = 0) by (vm_compute; reflexivity).
+    assert (LH : ldw ex_m 7634944 = 123136) by (vm_compute; reflexivity).
+    rewrite L1, L2, LH. cbn. repeat split; try lia; try reflexivity. }
+  split; [vm_compute; reflexivity|].
+  intros i Hi.
+  assert (Ei : i = 0 \/ i = 1 \/ i = 2 \/ i = 3 \/ i = 4 \/ i = 5 \/ i = 6 \/ i = 7 \/ i = 8 \/ i = 9 \/ i = 10
+               \/ i = 11 \/ i = 12 \/ i = 13 \/ i = 14 \/ i = 15) by lia.
+  repeat (destruct Ei as [Ei|Ei]; [subst i; vm_compute; split; [discriminate | reflexivity]|]).
+  subst i; vm_compute; split; [discriminate | reflexivity].
+Qed.
